@@ -30,6 +30,27 @@ def build():
                   E('handle', 'hid(r.unwrap()) == old(self).0.alloc.abs().created()', 'C01 C20'),
                   E('state', 'final(self).0.alloc.abs() == old(self).0.alloc.abs().create_now()', 'C01 C02 C17 C20'),
                   E('complete', 'old(self).0.alloc.wf_complete() ==> final(self).0.alloc.wf_complete()', 'C17')])
+    # ---- World::create_entity* / create_iter and the immediate builder (N3: the builder holds `&mut World`)
+    u.struct(M, ['struct EntityBuilder'], rules=[('N3', r"&'a World", "&'a mut World")])
+    CE_ENS = [E('handle', 'hid(r.entity) == old(self).abs().created()', 'C01 C20'),
+              E('unbuilt', '!r.built', 'C02'),
+              E('state', 'r.world.abs() == old(self).abs().create_now() && r.world.wf()', 'C01 C02 C17 C20'),
+              E('link', '*final(r.world) == *final(self)', 'C01')]
+    u.fn(W, ['impl WorldExt for World', 'fn create_entity_unchecked'], ret='r', props='C01 C02 C17 C20', impl_header=IH, key='World::create_entity_unchecked',
+         mut_self=True, rules=[('N1', r'-> EntityBuilder\b', "-> EntityBuilder<'_>")],
+         requires=[E('wf', 'old(self).wf()'), E('headroom', 'old(self).ents().alloc.headroom()')], ensures=CE_ENS)
+    u.fn(W, ['impl WorldExt for World', 'fn create_entity'], ret='r', props='C01 C02 C17 C20', impl_header=IH, key='World::create_entity',
+         rules=[('N1', r'-> EntityBuilder\b', "-> EntityBuilder<'_>")],
+         requires=[E('wf', 'old(self).wf()'), E('headroom', 'old(self).ents().alloc.headroom()')], ensures=CE_ENS)
+    u.fn(W, ['impl WorldExt for World', 'fn create_iter'], ret='r', props='C01', impl_header=IH, key='World::create_iter',
+         rules=[('N1', r'-> CreateIter\b', "-> CreateIter<'_>")],
+         ensures=[E('borrows_entities', '*r.0 == old(self).ents() && final(self).ents() == *final(r.0)')])
+    u.fn(M, ["impl<'a> Drop for EntityBuilder<'a>", 'fn drop'], props='C02', impl_header="impl<'a> EntityBuilder<'a>", key='EntityBuilder::drop',
+         rules=[('N10', r'\.read_resource::<EntitiesRes>\(\)', '.entities_mut()')],
+         requires=[E('wf', 'old(self).world.wf()'), E('headroom', 'old(self).world.ents().alloc.headroom_n(2)'),
+                   E('own', '!old(self).built ==> old(self).world.abs().current(old(self).entity)')],
+         ensures=[E('wf', 'final(self).world.wf()', 'C01 C02'),
+                  E('state', 'final(self).world.abs() == (if old(self).built { old(self).world.abs() } else { old(self).world.abs().defer_kill(old(self).entity) })')])
     # ---- deferred creation through the lazy builder
     u.struct(L, ['struct LazyBuilder'])
     u.fn(L, ['impl LazyUpdate', 'fn create_entity'], ret='r', props='C01 C02 C17 C20', mut_params=['ent'],
